@@ -6,6 +6,7 @@ import (
 	"fmt"
 	"hash/fnv"
 
+	"github.com/ulikunitz/lz"
 	"verif/mc/engine"
 )
 
@@ -86,11 +87,18 @@ type Layer struct {
 	NoTrack     bool
 	// CfgFilter drops configurations (after defaults).
 	CfgFilter func(pc PCfg) bool
+	// Geos overrides the geometry grid built from BufSizes.
+	Geos []lz.BufConfig
 }
 
 func (l Layer) describe() map[string]any {
-	return map[string]any{"layer": l.Name, "parsers": l.Kinds, "buffer_sizes": l.BufSizes, "search_param_level": l.Level,
+	m := map[string]any{"layer": l.Name, "parsers": l.Kinds, "buffer_sizes": l.BufSizes, "search_param_level": l.Level,
 		"inputs": l.Inputs.Name, "deviation_bound": l.Bound, "menu": l.Menu}
+	if l.Geos != nil {
+		m["geometries"] = l.Geos
+		delete(m, "buffer_sizes")
+	}
+	return m
 }
 
 // parserShards builds the shards of a parser-history check.
@@ -99,6 +107,9 @@ func parserShards(prop string, layers []Layer, mkOracle func() *Oracle) []engine
 	for _, l := range layers {
 		l := l
 		geo := Geometry(l.BufSizes)
+		if l.Geos != nil {
+			geo = l.Geos
+		}
 		for _, kind := range l.Kinds {
 			cfgs := Configs(kind, geo, l.Level)
 			if l.CfgFilter != nil {
@@ -206,6 +217,7 @@ func parserLayers(tier string, menu Menu) []Layer {
 			{Name: "sa-b1", Kinds: suffixKinds, BufSizes: []int{2, 3, 5, 8}, Level: 0, Inputs: Union(Binary(6), ZeroA(4)), Menu: menu, Bound: 1},
 			{Name: "sa-b2", Kinds: suffixKinds, BufSizes: []int{3, 5}, Level: 0, Inputs: Binary(5), Menu: menu, Bound: 2},
 			{Name: "sa-long", Kinds: suffixKinds, BufSizes: []int{16, 100}, Level: 0, Inputs: StructuredSet(17, 40, 130), Menu: menu, Bound: 0},
+			{Name: "sa-multiblock", Kinds: suffixKinds, Geos: multiBlockGeos, Level: 1, Inputs: Union(Binary(10), Ternary(6)), Menu: menu.and(Menu{NTL: true, ParseNil: true, StopEarly: true, ShrinkDev: true}), Bound: 2, CfgPerShard: 1},
 		}
 	}
 	return []Layer{
@@ -215,7 +227,22 @@ func parserLayers(tier string, menu Menu) []Layer {
 		{Name: "hash-long", Kinds: HashKinds, BufSizes: []int{16, 40}, Level: 0, Inputs: StructuredSet(17, 40), Menu: menu, Bound: 0},
 		{Name: "sa-b0", Kinds: suffixKinds, BufSizes: []int{1, 2, 3, 5, 8}, Level: 0, Inputs: Union(Binary(5), ZeroA(3)), Menu: menu, Bound: 0},
 		{Name: "sa-b1", Kinds: suffixKinds, BufSizes: []int{3, 5}, Level: 0, Inputs: Binary(4), Menu: menu, Bound: 1},
+		{Name: "sa-multiblock", Kinds: suffixKinds, Geos: multiBlockGeos, Level: 0, Inputs: Binary(8), Menu: menu.and(Menu{NTL: true, ParseNil: true, StopEarly: true, ShrinkDev: true}), Bound: 1, CfgPerShard: 1},
 	}
+}
+
+// multiBlockGeos are geometries in which one buffer fill (one suffix sort, one
+// edge computation) serves several blocks of a short input: what the suffix
+// array parsers keep between two Parse calls only matters there.
+var multiBlockGeos = []lz.BufConfig{
+	{BufferSize: 16, WindowSize: 16, BlockSize: 4},
+	{BufferSize: 16, WindowSize: 16, BlockSize: 5},
+	{BufferSize: 16, WindowSize: 16, BlockSize: 2},
+	{BufferSize: 8, ShrinkSize: 2, WindowSize: 8, BlockSize: 3},
+}
+
+func (m Menu) and(o Menu) Menu {
+	return Menu{m.WriteChunks && o.WriteChunks, m.ReadFrom && o.ReadFrom, m.NTL && o.NTL, m.ParseNil && o.ParseNil, m.StopEarly && o.StopEarly, m.ShrinkDev && o.ShrinkDev, m.Reset && o.Reset}
 }
 
 func layerBounds(layers []Layer) map[string]any {
